@@ -774,8 +774,7 @@ class Image:
             Image: copy of image with reset coordinatesystem
 
         """
-        # ! ---- Fetch and adapt metadata - simply remove origin and reinitialize
-        metadata = self.metadata()
+        # ! ---- Determine the default origin
         origin = self.space_dim * [0]
         for index_counter, index in enumerate(self.indexing):
             axis, reverse_axis = darsia.interpret_indexing(
@@ -786,6 +785,9 @@ class Image:
         self.origin = darsia.Coordinate(origin)
 
         if return_image:
+            # NOTE: Fetch the metadata after resetting the origin, such that the returned
+            # copy carries the reset origin as well.
+            metadata = self.metadata()
             return type(self)(img=self.img.copy(), **metadata)
 
     # ! ---- Arithmetics
